@@ -4,6 +4,7 @@ import JwtProofs.Decode
 import Props.C12
 import Props.CodecRoundTrip
 import Props.CodecText
+import Props.LoadClaims
 /-!
 # C03 — Encode then Decode is lossless for every claim kind
 
